@@ -121,7 +121,11 @@ pub fn run(src: &mut Src, ctx: &RunCtx, rep: &mut RunReport) {
                     uid += 1;
                     let key = keys[src.idx(keys.len())].clone();
                     let rid = ReplicaId::new(w);
-                    let v = ReplicatedValue::with_value(SDS::from_str(&format!("u{}", uid)), LamportClock { time: uid, replica_id: rid });
+                    // one update in ten carries a value of 5-20 KB: as JSON (a number per byte) up to 80 KB, a frame far above the small
+                    // pipe capacities; the at most twelve updates one node can hand over in one tick stay below the listener's 1 MiB frame limit
+                    let big = src.chance(1, 10) && cap >= 64; // (byte-sized pipes move a frame of 80 KB in as many scheduler steps)
+                    let text = if big { rep.probe("manager_update_of_5_to_20_kb"); format!("u{}{}", uid, "p".repeat(5_000 + src.below(15_000) as usize)) } else { format!("u{}", uid) };
+                    let v = ReplicatedValue::with_value(SDS::from_str(&text), LamportClock { time: uid, replica_id: rid });
                     let d = ReplicationDelta::new(key.clone(), v, rid);
                     let json = serde_json::to_string(&d).unwrap_or_default();
                     pendings[(w - 1) as usize].lock().unwrap().push(d);
